@@ -1237,16 +1237,30 @@ func c02Strip(c *Ctx, p *Prog) {
 		return
 	}
 	site := p.pos(fn.Pos())
-	outs, why := regionOutcomes(fn, func() *e6Interp {
-		return &e6Interp{PureCall: func(f *types.Func) bool { return true }}
-	}, 512)
-	if why != "" {
-		c.Undecided(R, "splitField:paths", site, why)
-		return
-	}
+	// the loops of the field splitter, and of the helpers of the package it hands a loop to (the stripping loop moved
+	// into a function of its own)
+	var outs []*e6Outcome
 	loopHeader := map[*ssa.BasicBlock]bool{}
-	for _, lp := range naturalLoops(fn) {
-		loopHeader[lp.Header] = true
+	cands := []*ssa.Function{fn}
+	eachInstr(fn, func(_ *ssa.BasicBlock, in ssa.Instruction) {
+		if call, ok := in.(*ssa.Call); ok {
+			if sc := call.Call.StaticCallee(); sc != nil && sc.Blocks != nil && sc.Pkg == fn.Pkg && len(naturalLoops(sc)) > 0 {
+				cands = append(cands, sc)
+			}
+		}
+	})
+	for _, g := range cands {
+		os, why := regionOutcomes(g, func() *e6Interp {
+			return &e6Interp{PureCall: func(f *types.Func) bool { return true }}
+		}, 512)
+		if why != "" {
+			c.Undecided(R, "splitField:paths", site, why)
+			return
+		}
+		outs = append(outs, os...)
+		for _, lp := range naturalLoops(g) {
+			loopHeader[lp.Header] = true
+		}
 	}
 	type sample struct {
 		name  string
@@ -1257,11 +1271,11 @@ func c02Strip(c *Ctx, p *Prog) {
 		{"U+0085", 0xC2, true}, {"U+00A0", 0xC2, true}, {"U+2003", 0xE2, true}}
 	n := 0
 	for _, o := range outs {
-		if o.Term != "return" || len(o.Results) != 2 || len(o.Blocks) == 0 || !loopHeader[o.Blocks[0]] {
+		if o.Term != "return" || len(o.Results) < 1 || len(o.Results) > 2 || len(o.Blocks) == 0 || !loopHeader[o.Blocks[0]] {
 			continue
 		}
 		// the slice handed back is a loop variable of this region, unchanged on this path
-		rest := o.Results[1]
+		rest := o.Results[len(o.Results)-1]
 		isLoopVar := false
 		for _, in := range o.Blocks[0].Instrs {
 			if phi, ok := in.(*ssa.Phi); ok {
